@@ -13,6 +13,7 @@ RULES = {
     "R-06.2": "fullcompare folds BOTH labels with the same normaliser, __hash__ folds every octet with it, canonicalize() uses it",
     "R-06.3": "fullcompare: mirrored </> arms, relative-before-absolute, right-to-left scan, length tie-break, relation from the length difference; is_subdomain/is_superdomain accept exactly {SUB|SUPER}DOMAIN and EQUAL",
     "R-06.5": "RFC 4471 octet stepping is monotone under the canonical fold: constant propagation of the octet variable through the increment fragment of _absolute_successor (resp. the decrement of _absolute_predecessor), for each of the 256 octet values, yields a value that folds strictly higher (lower); fold = ASCII lower-casing of RFC 4034 6.1; the fragment is interpreted by the checker (int + - == < and if), the repository code is not run",
+    "R-06.6": "no `x[:-n]` / `x[-n:]` slice of a name is taken with an n that may be 0 (relativizing to the empty origin, splitting at depth 0): C20 R-20.4's negative-zero-slice rule applied to dns/name.py",
     "R-06.4": "relativize strips exactly len(origin) labels and only under is_subdomain(origin); derelativize appends only to relative names; choose_relativity dispatches on origin/relativize",
 }
 OPS = {"__eq__": "==", "__ne__": "!=", "__lt__": "<", "__le__": "<=", "__ge__": ">=", "__gt__": ">"}
@@ -214,7 +215,7 @@ def run(model, rep, tier):
     # ---------------------------------------------------------------- R-06.4
     rl = model.func("dns.name.Name.relativize")
     t = " ".join(src(rl.node).split())
-    rep.check(pat.has(rl.node, "if self.is_subdomain(origin):\n    return Name(self[:-len(origin)])\nelse:\n    return self"), "R-06.4", rl.qualname, where(rl, rl.node),
+    rep.check(pat.has(rl.node, "if self.is_subdomain(origin):\n    return Name(self.labels[:len(self.labels) - len(origin)])\nelse:\n    return self"), "R-06.4", rl.qualname, where(rl, rl.node),
               "strips exactly len(origin) labels, only when self is a subdomain of origin", "relativize no longer strips exactly len(origin) labels under is_subdomain(origin)", stmt="relativize")
     dr = model.func("dns.name.Name.derelativize")
     t = " ".join(src(dr.node).split())
@@ -234,6 +235,10 @@ def run(model, rep, tier):
               "parent() changed", stmt="parent")
     gi = model.func("dns.name.Name.__getitem__")
     rep.check("return self.labels[index]" in src(gi.node), "R-06.4", gi.qualname, where(gi, gi.node), "slicing a name slices its labels", "Name.__getitem__ no longer indexes labels", stmt="getitem")
+    # ---------------------------------------------------------------- R-06.6
+    from rules.c20 import check_negative_zero_slices
+    n6 = check_negative_zero_slices(model, rep, "R-06.6", only_prefix="dns.name.")
+    rep.floor("R-06.6", n6, 2)
     # ---------------------------------------------------------------- R-06.5
     def fold(o):
         return o + 32 if 0x41 <= o <= 0x5A else o
@@ -346,6 +351,8 @@ def _blocks(fn):
 
 
 WITNESSES = [
+    {"id": "c06-relativize-negative-zero-slice", "rule": "R-06.6", "file": "dns/name.py", "expect": "fires",
+     "old": "            return Name(self.labels[: len(self.labels) - len(origin)])", "new": "            return Name(self[: -len(origin)])"},
     {"id": "c06-successor-steps-onto-bracket-for-all-uppercase", "rule": "R-06.5", "file": "dns/name.py", "expect": "fires",
      "old": "            if octet == _AT_SIGN_VALUE:\n                octet = _LEFT_SQUARE_BRACKET_VALUE\n            elif octet == _UPPER_Z_VALUE:", "new": "            if 0x40 <= octet <= 0x59:\n                octet = _LEFT_SQUARE_BRACKET_VALUE\n            elif octet == _UPPER_Z_VALUE:"},
     {"id": "c06-twin-successor-z-literal", "rule": "R-06.5", "file": "dns/name.py", "expect": "silent",
